@@ -17,7 +17,7 @@ CHECKS = {
         technique="runtime monitoring: multiset oracle (independent lstat/stat walker) over -print0 output, stderr and exit status; fault injection (mode-000 directory walked as uid 65534)",
         level="exploration",
         text="Each run of the real find (in-process find_main and the binary) over random trees with every kind of link, 1-3 starting points, all follow modes, (mindepth,maxdepth) pairs including min>max and -depth is compared as a multiset with an independent reference walk; exit status/diagnostic against modelled error events (missing root, unreadable directory, directory cycle). Quick ~3.5k runs, thorough ~150k.",
-        note="Trusts lib/refwalk.py (self-checked); cycle-closing links and unreadable directories themselves are optional in the output; ELOOP links not judged for exit status; tmpfs only.",
+        note="Trusts lib/refwalk.py (self-checked); cycle-closing links and unreadable directories themselves are optional in the output; ELOOP links not judged for exit status; tmpfs only. Round 7: 255-768 cycle-closing links in one -L walk; chain trees deeper than RLIMIT_NOFILE (lib/deep.py).",
         ref="DESIGN.md section 4 C02"),
     "C03": dict(
         technique="runtime monitoring: exact visit-sequence oracle (reference sorted DFS with prune predicate from the reference evaluator) + oracle-free metamorphic relation (-depth with/without -prune)",
@@ -53,25 +53,25 @@ CHECKS = {
         technique="runtime monitoring: recorder event log (argv+cwd per child) checked for exactly-once/order/fixed-prefix/one-directory-per-batch invariants against the reference evaluation; strace execve log (E2BIG = refutation); exit status under scripted failures",
         level="exploration",
         text="Small runs: random and hostile trees x 8 expression shapes (after tests, in -o, negated, -quit, two + actions, -depth, -maxdepth) x -exec/-execdir x 1-2 starting points x scripted failing batches / missing command. Big runs: 2000-6000 (quick) / to 40000 (thorough) paths with 100-240-byte names in flat and deep layouts under RLIMIT_STACK 512KiB..unlimited and padded environments, traced with strace, giving up to dozens of batches per run.",
-        note="Starting points spelled without '..' or '/.'; verdict for this kernel's execve accounting.",
+        note="Starting points spelled without '..' or '/.'; verdict for this kernel's execve accounting. Round 7: working directories of 3.7-5 kB with a relative starting point; mode-000 starting points walked as uid 65534 (skipped and noted where uid 65534 cannot execute the recorder).",
         ref="DESIGN.md section 4 C08"),
     "C09": dict(
         technique="runtime monitoring: recorder argv/cwd per child vs textual substitution model; truth value observed through a following labelled action; find exit status",
         level="exploration",
         text="Hostile file names x argument templates with 0-3 {} per argument (embedded, adjacent, lone braces, empty arguments, arguments that look like find primaries) x -exec/-execdir x 7 placements of the action (plain, after tests, negated, in -o, twice, missing command); the recorder's exit status is a pure function of argv, so the expected truth of every evaluation is computable.",
-        note="'{}' in the command name itself not judged; exit status of a following '{} +' action not judged.",
+        note="'{}' in the command name itself not judged; exit status of a following '{} +' action not judged. Round 7: untidily spelled starting points (r/, r//, r/., r/./sub) for -exec ;, the command as a bare name behind an unexecutable namesake in PATH.",
         ref="DESIGN.md section 4 C09"),
     "C10": dict(
         technique="runtime monitoring: strace log of every mutating syscall of find + before/after snapshots of the sandbox and of the directories links point to, vs a model replay of the -depth -print order on a twin copy",
         level="exploration",
         text="Sandboxes with nested directories, links to files and directories inside and outside the starting points, dangling links; state-independent expressions leaving some matched directories non-empty; follow modes -P/-H/-L; 1-2 starting points incl. a symlinked one. Successful removals in the strace log must equal the replayed ones in order, no other mutating syscall may occur, the after-snapshot must equal the twin's, and exit status/diagnostic/truth must reflect failed removals.",
-        note="Tests whose truth depends on earlier deletions (-empty, -links, -newer*) not used; runs as root (mknod for device nodes).",
+        note="Tests whose truth depends on earlier deletions (-empty, -links, -newer*) not used; runs as root (mknod for device nodes). Round 7: matched links that point at find's working directory; chains deeper than RLIMIT_NOFILE.",
         ref="DESIGN.md section 4 C10"),
     "C11": dict(
         technique="runtime monitoring: (a) ill-formed-by-construction argument vectors observed for exit status, stderr, stdout, child processes (recorder log) and sandbox snapshot; (b) totality fuzzing of the real find_main under catch_unwind with a per-case watchdog (privileges dropped to uid 65534), plus the binary for non-UTF-8 arguments; pattern-bearing vectors replayed under valgrind memcheck (crash = violation, reports advisory)",
         level="exploration",
         text="(a) 14 corruption kinds (binary operator first/last/before ')'/after '(', adjacent operators incl. '! -a', '!' before ')', unbalanced and empty parentheses, missing operand for 44 primaries, 28 unknown primaries, invalid operands for -type -xtype -size -links -inum -uid -gid the six time tests -perm -regextype -user -group -printf -newer* -newerXt, unbalanced -regex per syntax, 11 malformed -exec forms) applied to random valid expressions that contain printing, executing and deleting actions; (b) random vectors over 78 primaries, operators and parentheses with operands from valid values, near misses and ~150 arbitrary strings, on a tree with every file type, foreign owners, an unreadable directory, an ELOOP link, a 3GiB sparse file, a 60-character name and hostile names; (c) ~300 targeted shapes: every test/action evaluated on entries removed by an earlier -delete / -exec rm, every -printf directive on every type, patterns on which the regex engine gives up, non-UTF-8 arguments. Quick ~12k vectors.",
-        note="Creation/truncation of -fprint* files named before the error is not judged; an empty -newerXt operand is deliberately valid in this implementation (pinned by its test-suite); a watchdog firing is re-run alone before it counts as a hang; -printf widths between 10^6 and 10^19 are not generated (they legitimately produce megabytes to exabytes of padding).",
+        note="Creation/truncation of -fprint* files named before the error is not judged; an empty -newerXt operand is deliberately valid in this implementation (pinned by its test-suite); a watchdog firing is re-run alone before it counts as a hang; -printf widths between 10^6 and 10^19 are not generated (they legitimately produce megabytes to exabytes of padding). Round 7: 64 TZ values (clock change at local midnight yesterday/today/tomorrow, far offsets, unusable values) x 13 time-test shapes through the binary (depends on the day the check runs).",
         ref="DESIGN.md section 4 C11"),
     "C12": dict(
         technique="runtime monitoring: differential oracle over executions of the real matcher objects (in-process), real symlinks (-lname) and the binary: glibc fnmatch(3) in two locales AND an independent POSIX matcher must agree for a pair to be judged; a sample of pattern rows replayed under valgrind memcheck (native Oniguruma engine; crash = violation, reports advisory)",
@@ -101,19 +101,19 @@ CHECKS = {
         technique="runtime monitoring: ns-resolution integer oracle on os.lstat records with the clock injected through Dependencies::now(); timestamps set with utimensat, ctime read back and `now` placed relative to it",
         level="exploration",
         text="Age runs: 8-20 files whose atime and mtime are set independently to now-(k*period+e) for period in {day, minute}, k in {0,1,2,3,5,30,400}, e in {0,+-1ns,+-1ms,+-1s,half}; in half of the runs now = ctime(file) + k*period + e; all six -Xtime/-Xmin tests with N,+N,-N around every value. Newer runs: reference files with three different timestamps; entries whose atime/mtime is Y(ref) -1ns/0/+1ns (+-1us, +-1s); a second reference placed within 1ns of an entry's ctime; all nine -newerXY, -newer, -anewer, -cnewer. Quick ~450k evaluations, ~250k on a period boundary, ~4k within 1ns of the reference.",
-        note="-daystart, -newerXt, birth time not judged; ages >= 0; in-process only (the binary cannot be given a clock).",
+        note="-daystart, -newerXt, birth time not judged; ages >= 0; in-process only (the binary cannot be given a clock). Round 7: 40% of the age runs under a POSIX TZ whose clocks changed near `now`; links with time stamps of their own among the entries under -P/-H/-L.",
         ref="DESIGN.md section 4 C15"),
     "C16": dict(
         technique="runtime monitoring: independent renderer (Python, from os.lstat/os.stat/os.readlink and string operations on the path text) compared byte-for-byte with the output captured from the real find (in-process, binary sample, -fprintf files read back); oracle-free identities %p = -print and %H/%P recomposition",
         level="exploration",
         text="Random format strings (1-8 pieces: ASCII and multi-byte literals, every escape incl. \\NNN, %%, directives p f h H P d s n i U G m y Y l with optional '-' flag and width 0-40) rendered for every entry of a tree with all file types, links to file/dir/fifo/dangling, setuid/setgid/sticky modes, foreign owners, hard links and multi-byte names, under 19 starting-point spellings (r, ./r, r/, ., ./, absolute, absolute/, sub-directory, link to directory, link/, link to file, dangling link, file, several roots, r//, inner //) and -P/-H/-L. Quick ~3200 formats / ~50k (format, entry) renderings, 180 (directive, mode, flag, width) cells.",
-        note="(The former finding percent-H-root-with-trailing-slash is repaired; its signature is still computed, so a recurrence is reported as a fresh violation.) Not judged: leading zeros of %m, \\NNN above 177, width on non-ASCII values beyond 'padded to the width in characters or in bytes' (the statement does not name the unit), %Y under -H/-L and for dangling links, %l for links the follow mode resolves, %h with // or directly below /, %f/%h of dot components.",
+        note="(The former finding percent-H-root-with-trailing-slash is repaired; its signature is still computed, so a recurrence is reported as a fresh violation.) Not judged: leading zeros of %m, \\NNN above 177, width on non-ASCII values beyond 'padded to the width in characters or in bytes' (the statement does not name the unit), %Y under -H/-L and for dangling links, %l for links the follow mode resolves, %h with // or directly below /, %f/%h of dot components. Round 7: a tmpfs mounted below the starting point in every other worker (%i; needs mount permission, noted otherwise); values with a newline followed by >1 kB on real stdout.",
         ref="DESIGN.md section 4 C16"),
     "C18": dict(
         technique="runtime monitoring: per-starting-point reference walk (paths formed textually from the starting point as spelled) compared with the -print0 output, stderr and exit status of the real binary; operands vs -files0-from equivalence as an oracle-free relation",
         level="exploration",
         text="Lists of 0-5 starting points over 42 spellings (d ./d d/ d// d/. x/../d absolute .//d ../a . ./ .. ../, links, files, dangling links, names with blanks, multi-byte names, a lone '-', missing names, duplicates, nested ones) given as operands, as no operand, and as NUL-separated lists from a file and from stdin (with/without final NUL, with empty names, with names starting with '-', '!' '(' or containing a newline). -sorted runs are compared as exact sequences, the others as per-starting-point multisets in the order given; equivalent operand/-files0-from pairs must give identical output and exit status.",
-        note="Exit status after an empty -files0-from name is not judged (statement: diagnosed and skipped); valid UTF-8 names.",
+        note="Exit status after an empty -files0-from name is not judged (statement: diagnosed and skipped); valid UTF-8 names. Round 7: -files0-from lists of 1-3 MiB (thorough: up to 16 MiB) from a file and from stdin.",
         ref="DESIGN.md section 4 C18"),
     "C19": dict(
         technique="runtime monitoring: scripted recorder outcomes, exit status and number of invocations started vs the documented function; bounded-exhaustive over outcome classes",
@@ -125,7 +125,7 @@ CHECKS = {
         technique="runtime monitoring: recorder argv per invocation vs textual substitution model; option-order matrix for -I/-n/-L",
         level="exploration",
         text="Random line sets and initial-argument templates with 0-3 occurrences of R, six replacement strings in five spellings, empty input, -I with -n 1, and all orderings of all subsets of {-I,-n,-L} (mode of the last option judged with C04's batching model).",
-        note="Lines free of quotes, backslashes and leading blanks (statement's restriction); trailing blanks and bytes that are not valid UTF-8 are judged.",
+        note="Lines free of quotes, backslashes and leading blanks (statement's restriction); trailing blanks and bytes that are not valid UTF-8 are judged. Round 7: -I runs under a -s that is 1-8 bytes above what the largest command line needs.",
         ref="DESIGN.md section 4 C20"),
 }
 
